@@ -63,6 +63,10 @@ def cases(tier, seed):
             yield {"d": "FCC", "delim": delim, "s": ch, "comment": False}
             yield {"d": "FCC", "delim": delim, "s": "A" + ch + "B", "comment": False}
             yield {"d": "FCC", "delim": delim, "s": "A" + ch + "B", "comment": True}
+        # a literal TAB inside the string, at different columns (it is one character, $09, wherever it stands)
+        for t in ("\t", "A\tB", "\tA", "A\t", "A\t\tB", "AB\tC", "ABCDEFG\tH", "A \t B"):
+            for cm in (False, True):
+                yield {"d": "FCC", "delim": delim, "s": t, "comment": cm}
         for n in list(range(0, 40)) + [63, 64, 127, 128, 200, 254, 255] if not thorough else range(0, 256):
             yield {"d": "FCC", "delim": delim, "s": "A" * n, "comment": False}
             yield {"d": "FCC", "delim": delim, "s": " " * n, "comment": False}
